@@ -809,7 +809,7 @@ def _to_float(v):
 def _replay_shows(rp, cname):
     if cname.startswith("no_exception:"):
         return rp.get("status") == "exception" and rp.get("exc_type") == cname.split(":", 1)[1]
-    if rp.get("status") != "ok":
+    if rp.get("status") not in ("ok", "exception"):
         return False
     for n, ok in rp.get("claims", []):
         if n == cname and not ok:
